@@ -8,7 +8,8 @@ namespace CV.Peer
 
 theorem regNode_succeeds {c : Cat} (_wf : WF c) {nd : Node}
     (hid : nd.id ≠ "" → ∀ e ∈ c.nodes, e.peer = nd.peer → e.id = nd.id → e.name = nd.name)
-    (h2 : nd.id ≠ "" → ∀ e ∈ c.nodes, e.peer = nd.peer → e.name = nd.name → e.id = "" ∨ e.id = nd.id) :
+    (h2 : nd.id ≠ "" → ∀ e ∈ c.nodes, e.peer = nd.peer → e.name = nd.name →
+      e.id = "" ∨ e.id = nd.id ∨ serfHealthy c nd.peer e.name = false) :
     ∃ c', regNode c nd = .ok c' := by
   have noClash : nd.id ≠ "" → nameClash c nd true = false := by
     intro hne
@@ -18,10 +19,11 @@ theorem regNode_succeeds {c : Cat} (_wf : WF c) {nd : Node}
       exfalso
       simp only [nameClash, List.any_eq_true, Bool.and_eq_true, Bool.or_eq_true, decide_eq_true_eq,
         Bool.not_true, Bool.false_eq_true, or_false] at hc
-      obtain ⟨e, he, ⟨⟨h1, h3, h4⟩, h5⟩, _⟩ := hc
-      rcases h2 hne e he h1 h3 with h6 | h6
+      obtain ⟨e, he, ⟨⟨h1, h3, h4⟩, h5⟩, h7⟩ := hc
+      rcases h2 hne e he h1 h3 with h6 | h6 | h6
       · exact h5 h6
       · exact h4 h6.symm
+      · rw [h1] at h7; rw [h6] at h7; cases h7
   have ens : ∃ c', ensureNode c nd = .ok c' := by
     unfold ensureNode
     split
@@ -47,7 +49,8 @@ theorem regNode_succeeds {c : Cat} (_wf : WF c) {nd : Node}
 /-- the head conditions under which one registration transaction commits -/
 theorem register_succeeds {c : Cat} (wf : WF c) {r : RegReq}
     (hid : r.node.id ≠ "" → ∀ e ∈ c.nodes, e.peer = r.peer → e.id = r.node.id → e.name = r.node.name)
-    (h2 : r.node.id ≠ "" → ∀ e ∈ c.nodes, e.peer = r.peer → e.name = r.node.name → e.id = "" ∨ e.id = r.node.id)
+    (h2 : r.node.id ≠ "" → ∀ e ∈ c.nodes, e.peer = r.peer → e.name = r.node.name →
+      e.id = "" ∨ e.id = r.node.id ∨ serfHealthy c r.peer e.name = false)
     (hsid : ∀ sd, r.svc = some sd → sd.sid ≠ "")
     (hnode : ∀ k ∈ r.chks, k.node = r.node.name)
     (hsvc : ∀ k ∈ r.chks, k.sid ≠ "" → (∃ s ∈ c.svcs, s.peer = r.peer ∧ s.node = k.node ∧ s.sid = k.sid) ∨
@@ -127,123 +130,34 @@ theorem register_succeeds {c : Cat} (wf : WF c) {r : RegReq}
     rw [h2']
     exact h3
 
-/-- service keys available to the check registrations: known so far, growing along the command list -/
-def Pres : (String → String → Prop) → List Op → Prop
-  | _, [] => True
-  | K, .reg r :: os =>
-    (∀ k ∈ r.chks, k.sid ≠ "" → K k.node k.sid ∨ ∃ sd, r.svc = some sd ∧ r.node.name = k.node ∧ sd.sid = k.sid) ∧
-    Pres (fun n i => K n i ∨ ∃ sd, r.svc = some sd ∧ r.node.name = n ∧ sd.sid = i) os
-  | K, _ :: os => Pres K os
-
-theorem Pres.mono {K K' : String → String → Prop} (h : ∀ n i, K n i → K' n i) (ops : List Op) :
-    Pres K ops → Pres K' ops := by
-  induction ops generalizing K K' with
-  | nil => exact fun _ => trivial
-  | cons o os ih =>
-    cases o with
-    | reg r =>
-      simp only [Pres]
-      rintro ⟨a, b⟩
-      refine ⟨fun k hk hne => ?_, ih (fun n i hni => ?_) b⟩
-      · rcases a k hk hne with h1 | h1
-        · exact Or.inl (h _ _ h1)
-        · exact Or.inr h1
-      · rcases hni with h1 | h1
-        · exact Or.inl (h _ _ h1)
-        · exact Or.inr h1
-    | deregSvc p n i => simp only [Pres]; exact ih h
-    | deregChk p n k => simp only [Pres]; exact ih h
-    | deregNode p n => simp only [Pres]; exact ih h
-
-/-- the keys a command list adds -/
-def addsKey (ops : List Op) (n i : String) : Prop := ∃ r sd, Op.reg r ∈ ops ∧ r.svc = some sd ∧ r.node.name = n ∧ sd.sid = i
-
-theorem Pres.append {K : String → String → Prop} (a b : List Op) :
-    Pres K (a ++ b) ↔ Pres K a ∧ Pres (fun n i => K n i ∨ addsKey a n i) b := by
-  induction a generalizing K with
-  | nil =>
-    simp only [List.nil_append, Pres, true_and]
-    constructor
-    · exact Pres.mono (fun n i h => Or.inl h) b
-    · apply Pres.mono
-      rintro n i (h | ⟨r, _, hr, _⟩)
-      · exact h
-      · cases hr
-  | cons o os ih =>
-    cases o with
-    | reg r =>
-      simp only [List.cons_append, Pres, ih, and_assoc]
-      constructor
-      · rintro ⟨h1, h2, h3⟩
-        refine ⟨h1, h2, Pres.mono ?_ b h3⟩
-        rintro n i ((h | ⟨sd, e1, e2, e3⟩) | ⟨r', sd, hr', e⟩)
-        · exact Or.inl h
-        · exact Or.inr ⟨r, sd, by simp, e1, e2, e3⟩
-        · exact Or.inr ⟨r', sd, by simp [hr'], e⟩
-      · rintro ⟨h1, h2, h3⟩
-        refine ⟨h1, h2, Pres.mono ?_ b h3⟩
-        rintro n i (h | ⟨r', sd, hr', e1, e2, e3⟩)
-        · exact Or.inl (Or.inl h)
-        · simp only [List.mem_cons, Op.reg.injEq] at hr'
-          rcases hr' with rfl | hr'
-          · exact Or.inl (Or.inr ⟨sd, e1, e2, e3⟩)
-          · exact Or.inr ⟨r', sd, hr', e1, e2, e3⟩
-    | deregSvc p n i =>
-      simp only [List.cons_append, Pres, ih]
-      constructor
-      · rintro ⟨h1, h2⟩
-        refine ⟨h1, Pres.mono ?_ b h2⟩
-        rintro n' i' (h | ⟨r', sd, hr', e⟩)
-        · exact Or.inl h
-        · exact Or.inr ⟨r', sd, by simp [hr'], e⟩
-      · rintro ⟨h1, h2⟩
-        refine ⟨h1, Pres.mono ?_ b h2⟩
-        rintro n' i' (h | ⟨r', sd, hr', e⟩)
-        · exact Or.inl h
-        · simp only [List.mem_cons] at hr'
-          rcases hr' with hr' | hr'
-          · cases hr'
-          · exact Or.inr ⟨r', sd, hr', e⟩
-    | deregChk p n k =>
-      simp only [List.cons_append, Pres, ih]
-      constructor
-      · rintro ⟨h1, h2⟩
-        refine ⟨h1, Pres.mono ?_ b h2⟩
-        rintro n' i' (h | ⟨r', sd, hr', e⟩)
-        · exact Or.inl h
-        · exact Or.inr ⟨r', sd, by simp [hr'], e⟩
-      · rintro ⟨h1, h2⟩
-        refine ⟨h1, Pres.mono ?_ b h2⟩
-        rintro n' i' (h | ⟨r', sd, hr', e⟩)
-        · exact Or.inl h
-        · simp only [List.mem_cons] at hr'
-          rcases hr' with hr' | hr'
-          · cases hr'
-          · exact Or.inr ⟨r', sd, hr', e⟩
-    | deregNode p n =>
-      simp only [List.cons_append, Pres, ih]
-      constructor
-      · rintro ⟨h1, h2⟩
-        refine ⟨h1, Pres.mono ?_ b h2⟩
-        rintro n' i' (h | ⟨r', sd, hr', e⟩)
-        · exact Or.inl h
-        · exact Or.inr ⟨r', sd, by simp [hr'], e⟩
-      · rintro ⟨h1, h2⟩
-        refine ⟨h1, Pres.mono ?_ b h2⟩
-        rintro n' i' (h | ⟨r', sd, hr', e⟩)
-        · exact Or.inl h
-        · simp only [List.mem_cons] at hr'
-          rcases hr' with hr' | hr'
-          · cases hr'
-          · exact Or.inr ⟨r', sd, hr', e⟩
+/-- the serf check of a node is looked up in the checks table only: it stays "not healthy" when no check row at
+    that key is added -/
+theorem serfHealthy_false_of {c c1 : Cat} (wf : WF c) {p n : String}
+    (h : ∀ x ∈ c1.chks, x.peer = p → x.node = n → x.cid = "serfHealth" → x ∈ c.chks)
+    (hc : serfHealthy c p n = false) : serfHealthy c1 p n = false := by
+  unfold serfHealthy at hc ⊢
+  cases hf1 : c1.chks.find? (chkAt p n "serfHealth") with
+  | none => rfl
+  | some k1 =>
+    obtain ⟨m1, a1, a2, a3⟩ := find_chk hf1
+    have hk := h k1 m1 a1 a2 a3
+    cases hf : c.chks.find? (chkAt p n "serfHealth") with
+    | none => exact absurd ⟨a1, a2, a3⟩ (find_chk_none hf k1 hk)
+    | some k0 =>
+      obtain ⟨m0, b1, b2, b3⟩ := find_chk hf
+      have : k0 = k1 := wf.chks k0 m0 k1 hk (by rw [b1, a1]) (by rw [b2, a2]) (by rw [b3, a3])
+      subst this
+      simp only [hf] at hc
+      simpa using hc
 
 /-- a coherent list of registrations whose head conditions hold along the way is applied without failure -/
 theorem runRegs_ok (ops : List Op) (c : Cat) (p : String) (wf : WF c) (ok : RegsOK c p ops)
-    (h2 : ∀ r, .reg r ∈ ops → r.node.id ≠ "" → ∀ e ∈ c.nodes, e.peer = p → e.name = r.node.name → e.id = "" ∨ e.id = r.node.id)
-    (hnode : ∀ r, .reg r ∈ ops → ∀ k ∈ r.chks, k.node = r.node.name)
-    (hpres : Pres (fun n i => ∃ s ∈ c.svcs, s.peer = p ∧ s.node = n ∧ s.sid = i) ops) :
+    (K : String → String → String → Prop) (kl : KL c p K) (kco : KCo K ops) (hpres : Pres K ops)
+    (h2 : ∀ r, .reg r ∈ ops → r.node.id ≠ "" → ∀ e ∈ c.nodes, e.peer = p → e.name = r.node.name →
+      e.id = "" ∨ e.id = r.node.id ∨ serfHealthy c p e.name = false)
+    (hnode : ∀ r, .reg r ∈ ops → ∀ k ∈ r.chks, k.node = r.node.name) :
     (runOps c ops).2.1 = none := by
-  induction ops generalizing c with
+  induction ops generalizing c K with
   | nil => rfl
   | cons o os ih =>
     obtain ⟨r, rfl, hp⟩ := ok.regs o (by simp)
@@ -252,148 +166,39 @@ theorem runRegs_ok (ops : List Op) (c : Cat) (p : String) (wf : WF c) (ok : Regs
     simp only [Pres] at hpres
     obtain ⟨c1, h1⟩ := register_succeeds wf (r := r)
       (by rw [hp]; exact ok.hid r hr) (by rw [hp]; exact h2 r hr)
-      (fun sd hsd => ok.sid r sd hr hsd) (hnode r hr) (by rw [hp]; exact hpres.1)
-    obtain ⟨wf1, n1, s1, k1⟩ := register_spec wf (r := r)
-      (by rw [hp]; exact ok.hid r hr)
-      (fun sd hsd => ok.sid r sd hr hsd)
-      (ok.cchk r r hr hr)
-      (fun k hk hs => ⟨by rw [hp]; exact ok.nmc r hr k hk hs, fun sd hsd => ok.nmo r r sd hr hr k hk hs hsd⟩)
-      h1
-    rw [hp] at n1 s1 k1
-    have ok1 : RegsOK c1 p os := by
-      refine ⟨fun o ho => ok.regs o (by simp [ho]), ?_, ?_, ?_, ?_, ?_, ?_, ?_, ?_⟩
-      · intro r' hr' hne e he hep hei
-        rcases (n1 e).mp he with rfl | ⟨he1, _⟩
-        · simp only [nodeRow] at hei ⊢
-          exact ok.cid r r' hr (mem r' hr') hei (by rw [hei]; exact hne)
-        · exact ok.hid r' (mem r' hr') hne e he1 hep hei
-      · exact fun a b ha hb => ok.cid a b (mem a ha) (mem b hb)
-      · exact fun a b ha hb => ok.cnode a b (mem a ha) (mem b hb)
-      · exact fun a b sd sd' ha hb => ok.csvc a b sd sd' (mem a ha) (mem b hb)
-      · exact fun a sd ha => ok.sid a sd (mem a ha)
-      · exact fun a b ha hb => ok.cchk a b (mem a ha) (mem b hb)
-      · intro r' hr' k hk hs s hs1 e1 e2 e3
-        rcases (s1 s).mp hs1 with ⟨sd, hsd, rfl⟩ | ⟨h3, _⟩
-        · simp only [svcRow] at e2 e3 ⊢
-          exact ok.nmo r' r sd (mem r' hr') hr k hk hs hsd e2 e3
-        · exact ok.nmc r' (mem r' hr') k hk hs s h3 e1 e2 e3
-      · exact fun a b sd ha hb => ok.nmo a b sd (mem a ha) (mem b hb)
-    have h21 : ∀ r', .reg r' ∈ os → r'.node.id ≠ "" → ∀ e ∈ c1.nodes, e.peer = p → e.name = r'.node.name → e.id = "" ∨ e.id = r'.node.id := by
+      (fun sd hsd => ok.sid r sd hr hsd) (hnode r hr)
+      (by
+        intro k hk hne
+        rcases hpres.1 k hk hne with hK | hsv
+        · left; rw [hp]; exact (kl _ _ _ hK).1
+        · exact Or.inr hsv)
+    obtain ⟨wf1, n1, s1, k1, ok1, kl1, kco1⟩ := regs_tail wf ok kl kco hpres.1 h1
+    have h21 : ∀ r', .reg r' ∈ os → r'.node.id ≠ "" → ∀ e ∈ c1.nodes, e.peer = p → e.name = r'.node.name →
+        e.id = "" ∨ e.id = r'.node.id ∨ serfHealthy c1 p e.name = false := by
       intro r' hr' hne e he hep hen
-      rcases (n1 e).mp he with rfl | ⟨he1, _⟩
+      rcases (n1 e).mp he with rfl | ⟨he1, hnk⟩
       · simp only [nodeRow] at hen ⊢
-        right
+        right; left
         rw [ok.cnode r r' hr (mem r' hr') hen]
-      · exact h2 r' (mem r' hr') hne e he1 hep hen
-    have hpres1 : Pres (fun n i => ∃ s ∈ c1.svcs, s.peer = p ∧ s.node = n ∧ s.sid = i) os := by
-      apply Pres.mono _ os hpres.2
-      rintro n i (⟨s, hs, e1, e2, e3⟩ | ⟨sd, hsd, e2, e3⟩)
-      · by_cases hkey : ∃ sd, r.svc = some sd ∧ s.peer = p ∧ s.node = r.node.name ∧ s.sid = sd.sid
-        · obtain ⟨sd, hsd, _, e4, e5⟩ := hkey
-          exact ⟨_, (s1 _).mpr (Or.inl ⟨sd, hsd, rfl⟩), rfl, by simp [svcRow, ← e2, e4], by simp [svcRow, ← e3, e5]⟩
-        · exact ⟨s, (s1 s).mpr (Or.inr ⟨hs, fun sd' hsd' hk => hkey ⟨sd', hsd', hk⟩⟩), e1, e2, e3⟩
-      · exact ⟨_, (s1 _).mpr (Or.inl ⟨sd, hsd, rfl⟩), rfl, by simp [svcRow, e2], by simp [svcRow, e3]⟩
-    have := ih c1 wf1 ok1 h21 (fun r' hr' => hnode r' (mem r' hr')) hpres1
+      · rcases h2 r' (mem r' hr') hne e he1 hep hen with h | h | h
+        · exact Or.inl h
+        · exact Or.inr (Or.inl h)
+        · refine Or.inr (Or.inr (serfHealthy_false_of wf ?_ h))
+          intro x hx xp xn xc
+          rcases (k1 x).mp hx with ⟨k, hk, rfl⟩ | ⟨hx0, _⟩
+          · exfalso
+            simp only [chkRow] at xn
+            exact hnk ⟨hep, by rw [← xn, hnode r hr k hk]⟩
+          · exact hx0
+    have := ih c1 wf1 ok1 (addK K r) kl1 kco1 hpres.2 h21 (fun r' hr' => hnode r' (mem r' hr'))
     simp only [runOps, applyOp, h1]
     exact this
 
 /-! ### the registrations of a consistent snapshot -/
 
-theorem Pres.nochk {K : String → String → Prop} (ops : List Op) (h : ∀ r, Op.reg r ∈ ops → r.chks = []) : Pres K ops := by
-  induction ops generalizing K with
-  | nil => trivial
-  | cons o os ih =>
-    cases o with
-    | reg r =>
-      simp only [Pres]
-      refine ⟨?_, ih (fun r' hr' => h r' (by simp [hr']))⟩
-      rw [h r (by simp)]; simp
-    | deregSvc p n i => simp only [Pres]; exact ih (fun r' hr' => h r' (by simp [hr']))
-    | deregChk p n k => simp only [Pres]; exact ih (fun r' hr' => h r' (by simp [hr']))
-    | deregNode p n => simp only [Pres]; exact ih (fun r' hr' => h r' (by simp [hr']))
-
-theorem Pres.node {c : Cat} {p sn : String} {st : List CSN} {snap : Snap} {is : List Inst}
-    (ok : SnapOK sn is) (hs : SnapIs snap is) (hst : csn c p sn = .ok st) {nd : SNode} (hnd : nd ∈ snap)
-    {K : String → String → Prop} (hK : ∀ n i, (∃ s ∈ c.svcs, s.peer = p ∧ s.node = n ∧ s.sid = i) → K n i) :
-    Pres K (regOpsNode p st nd) := by
-  -- split the command list of the node into the registrations without checks and the final check registration
-  have hsplit : ∃ a b, regOpsNode p st nd = a ++ b ∧ (∀ r, Op.reg r ∈ a → r.chks = []) ∧
-      (∀ ss ∈ nd.svcs, svcUnchanged st nd.node.name ss.svc = false → addsKey a nd.node.name ss.svc.sid) ∧
-      (∀ r, Op.reg r ∈ b → r.svc = none ∧ ∀ k ∈ r.chks, ∃ ss ∈ nd.svcs, k ∈ ss.chks) ∧ b.length ≤ 1 := by
-    refine ⟨(if nodeUnchanged st nd.node then [] else [Op.reg ⟨p, nd.node, none, []⟩]) ++
-        (nd.svcs.filter fun ss => !svcUnchanged st nd.node.name ss.svc).map fun ss => Op.reg ⟨p, nd.node, some ss.svc, []⟩,
-      (if (nd.svcs.flatMap fun ss => ss.chks.filter fun k => !chkUnchanged st nd.node.name ss.svc.sid k).isEmpty then []
-       else [Op.reg ⟨p, nd.node, none, nd.svcs.flatMap fun ss => ss.chks.filter fun k => !chkUnchanged st nd.node.name ss.svc.sid k⟩]),
-      by simp only [regOpsNode, List.append_assoc], ?_, ?_, ?_, ?_⟩
-    · intro r hr
-      simp only [List.mem_append, List.mem_map, List.mem_filter] at hr
-      rcases hr with hr | ⟨ss, _, hr⟩
-      · split at hr
-        · cases hr
-        · simp only [List.mem_singleton, Op.reg.injEq] at hr; subst hr; rfl
-      · simp only [Op.reg.injEq] at hr; subst hr; rfl
-    · intro ss hss hu
-      refine ⟨⟨p, nd.node, some ss.svc, []⟩, ss.svc, ?_, rfl, rfl, rfl⟩
-      simp only [List.mem_append, List.mem_map, List.mem_filter]
-      exact Or.inr ⟨ss, ⟨hss, by simp [hu]⟩, rfl⟩
-    · intro r hr
-      split at hr
-      · cases hr
-      · simp only [List.mem_singleton, Op.reg.injEq] at hr; subst hr
-        refine ⟨rfl, fun k hk => ?_⟩
-        simp only [List.mem_flatMap, List.mem_filter] at hk
-        obtain ⟨ss, hss, hk, _⟩ := hk
-        exact ⟨ss, hss, hk⟩
-    · split <;> simp
-  obtain ⟨a, b, e, ha, hadd, hb, hlen⟩ := hsplit
-  rw [e, Pres.append]
-  refine ⟨Pres.nochk a ha, ?_⟩
-  match b, hb, hlen with
-  | [], _, _ => trivial
-  | [o], hb, _ =>
-    cases o with
-    | reg r =>
-      simp only [Pres, and_true]
-      intro k hk hne
-      left
-      obtain ⟨hsv, hck⟩ := hb r (by simp)
-      obtain ⟨ss, hss, hks⟩ := hck k hk
-      obtain ⟨i, hi, e1, e2, e3⟩ := hs.fwd nd hnd ss hss
-      obtain ⟨_, hkn, _, hksid⟩ := ok.chk i hi k (by rw [← e3]; exact hks)
-      have hsid : k.sid = ss.svc.sid := by
-        rcases hksid with h | ⟨h, _⟩
-        · exact absurd h hne
-        · rw [h, e2]
-      have hnn : k.node = nd.node.name := by rw [hkn, e1]
-      cases hu : svcUnchanged st nd.node.name ss.svc with
-      | true =>
-        left
-        apply hK
-        exact ⟨_, svcUnchanged_stored hst hu, rfl, by simp [svcRow, hnn], by simp [svcRow, hsid]⟩
-      | false =>
-        right
-        rw [hnn, hsid]
-        exact hadd ss hss hu
-    | deregSvc p n i => simp only [Pres]
-    | deregChk p n k => simp only [Pres]
-    | deregNode p n => simp only [Pres]
-  | _ :: _ :: _, _, hlen => simp at hlen
-
-theorem Pres.snap {c : Cat} {p sn : String} {st : List CSN} {snap : Snap} {is : List Inst}
-    (ok : SnapOK sn is) (hs : SnapIs snap is) (hst : csn c p sn = .ok st) (l : List SNode) (hl : ∀ nd ∈ l, nd ∈ snap)
-    {K : String → String → Prop} (hK : ∀ n i, (∃ s ∈ c.svcs, s.peer = p ∧ s.node = n ∧ s.sid = i) → K n i) :
-    Pres K (l.flatMap (regOpsNode p st)) := by
-  induction l generalizing K with
-  | nil => trivial
-  | cons nd rest ih =>
-    simp only [List.flatMap_cons, Pres.append]
-    exact ⟨Pres.node ok hs hst (hl nd (by simp)) hK,
-      ih (fun x hx => hl x (by simp [hx])) (fun n i h => Or.inl (hK n i h))⟩
-
 /-- A consistent snapshot that meets no UUID conflict is processed: no error, no panic. -/
 theorem handleUpdate_processed {c : Cat} {p sn : String} {is : List Inst}
-    (wf : WF c) (ok : SnapOK sn is) (fr : Fresh c p is) (nt : NoTheft c p sn is) (nc : NoClash c p is)
-    (rd : Readable c p sn) :
+    (wf : WF c) (ok : SnapOK sn is) (fr : Fresh c p is) (nc : NoClash c p is) (rd : Readable c p sn) :
     (handleUpdate c p sn is).err = none ∧ (handleUpdate c p sn is).panic = false := by
   -- the view can be read
   have hst : ∃ st, csn c p sn = .ok st := by
@@ -407,9 +212,10 @@ theorem handleUpdate_processed {c : Cat} {p sn : String} {is : List Inst}
     | some e => exact ⟨⟨e, s, c.chks.filter (chkOfNode p s.node) ++ c.chks.filter (chkOfSvc p s.node s.sid)⟩, by simp only [csnOf, hf]⟩
   obtain ⟨st, hst⟩ := hst
   obtain ⟨snap, hsnap, _, sis⟩ := mkSnap_is ok
-  have rok := regsOK (st := st) ok sis fr nt
+  have rok := regsOK (c := c) (st := st) ok sis fr
   have hgo : (runOps c (snap.flatMap (regOpsNode p st))).2.1 = none := by
-    apply runRegs_ok _ c p wf rok
+    apply runRegs_ok _ c p wf rok (K0 c p sn) (K0_kl c p sn) (K0_kco ok sis)
+      (Pres.snap wf ok sis hst snap (fun _ h => h) (fun _ _ _ h => h))
     · intro r hr hne e he hep hen
       obtain ⟨_, ⟨i, hi, e1⟩, _, _⟩ := op_inst sis hr
       rw [e1] at hne hen ⊢
@@ -418,7 +224,6 @@ theorem handleUpdate_processed {c : Cat} {p sn : String} {is : List Inst}
       obtain ⟨_, _, _, h3⟩ := op_inst sis hr
       obtain ⟨i, hi, e1, hki⟩ := h3 k hk
       rw [e1]; exact (ok.chk i hi k hki).2.1
-    · exact Pres.snap ok sis hst snap (fun _ h => h) (fun _ _ h => h)
   unfold handleUpdate
   simp only [hst, hsnap]
   cases hr : runOps c (snap.flatMap (regOpsNode p st)) with
